@@ -554,34 +554,20 @@ def r8_subst(toks, stats, table, tag="R8"):
 # R11: `?` on a fixed list of calls -> explicit early return
 # ------------------------------------------------------------------------------------------------
 def r11_question(toks, stats, conv="vx_from"):
-    """`EXPR?` where EXPR is a method-call chain statement or let-initialiser:
-       `let x = E?;` -> `let x = match E { Ok(v) => v, Err(e) => return Err(vx_from(e)) };`
-       `E?;`        -> `match E { Ok(v) => v, Err(e) => return Err(vx_from(e)) };`
-    The expression start is the beginning of the statement / initialiser (only these two positions are
-    supported; anything else is outside the subset)."""
+    """`CHAIN?` -> `(match CHAIN { Ok(vx_v) => vx_v, Err(vx_e) => return Err(conv(vx_e)) })` where CHAIN is the postfix/method-call
+    chain that ends at the `?` (Rust's own desugaring of `?` with the From conversion named explicitly)."""
     while True:
         m = match_table(toks)
         q = -1
         for i, t in enumerate(toks):
-            if t.s == "?" and i + 1 < len(toks) and toks[i + 1].s in (";", ")", ".", ","):
-                q = i; break
-            if t.s == "?" :
+            if t.s == "?":
                 q = i; break
         if q < 0: return toks
-        # walk back to expression start
-        j = q - 1
-        while j >= 0:
-            t = toks[j]
-            if t.k == "c":
-                j = m[j] - 1; continue
-            if t.s in (";", "{", "}", "=", "=>", ",", "(") or t.k == "o":
-                break
-            if t.s in ("return",):
-                break
-            j -= 1
-        start = j + 1
-        expr = toks[start:q]
-        new = T("match") + expr + T("{ Ok(vx_v) => vx_v, Err(vx_e) => return Err(%s(vx_e)) }" % conv)
+        start = chain_start(toks, m, q)
+        # a leading `await`-less parenthesised expression `(x)?` is a chain that starts at the paren: chain_start handles closers
+        expr = [x.copy() for x in toks[start:q]]
+        if expr: expr[0].sp = True
+        new = T("(match") + expr + T("{ Ok(vx_v) => vx_v, Err(vx_e) => return Err(%s(vx_e)) })" % conv)
         toks[start:q + 1] = new
         stats["R11.question"] = stats.get("R11.question", 0) + 1
 
@@ -858,7 +844,9 @@ def r6_select(toks, stats, env="env"):
 def r14_outline(toks, stats, outlines):
     """outlines: list of (anchor_text, call_text): the first remaining `anchor_text {...}` has its block (and the last token of the
     anchor, `async`) replaced by call_text"""
-    for anchor, call in outlines:
+    for entry in outlines:
+        anchor, call = entry[0], entry[1]
+        keep_anchor = len(entry) > 2 and entry[2] == "keep_anchor"
         m = match_table(toks)
         p = pat(anchor)
         i = find_seq(toks, p)
@@ -868,7 +856,10 @@ def r14_outline(toks, stats, outlines):
         if toks[b].s != "{": raise ExtractError("R14: %r is not followed by a block" % anchor)
         new = T(call)
         for x in new: x.line = toks[i].line
-        toks[i + len(p) - 1: m[b] + 1] = new
+        if keep_anchor:
+            toks[b: m[b] + 1] = new           # only the block is replaced (closure parameter list stays)
+        else:
+            toks[i + len(p) - 1: m[b] + 1] = new
         stats["R14.outline"] = stats.get("R14.outline", 0) + 1
     return toks
 
@@ -1103,4 +1094,54 @@ def r10_vec_idioms(toks, stats):
                 stats["R10.vextend"] = stats.get("R10.vextend", 0) + 1
                 changed = True
                 break
+    return toks
+
+
+# R10e: `it.any(C)` on the path iterators of an event / on `v.iter()` -> prelude functions with ghost twins
+#   X.iter().any(C) -> vany_ref(&X, C)      X.any(C) -> X.vany(C)
+def r10_any_idioms(toks, stats):
+    changed = True
+    while changed:
+        changed = False
+        m = match_table(toks)
+        i = find_seq(toks, pat(".iter().any("))
+        if i >= 0:
+            start = chain_start(toks, m, i)
+            recv = [x.copy() for x in toks[start:i]]
+            k = i
+            while toks[k].s != "any": k += 1
+            fopen = k + 1; fclose = m[fopen]
+            new = T("vany_ref(&") + recv + T(",") + toks[fopen + 1:fclose] + T(")")
+            toks[start:fclose + 1] = new
+            stats["R10.vany_ref"] = stats.get("R10.vany_ref", 0) + 1
+            changed = True
+            continue
+        for i, t in enumerate(toks):
+            if t.s == "." and i + 2 < len(toks) and toks[i + 1].s == "any" and toks[i + 2].s == "(":
+                toks[i + 1] = Tok("id", "vany", toks[i + 1].line, toks[i + 1].col, False)
+                stats["R10.vany"] = stats.get("R10.vany", 0) + 1
+                changed = True
+                break
+    return toks
+
+
+# ------------------------------------------------------------------------------------------------
+# R16: Rust's own desugaring of `for` for loops whose body uses `continue` (Verus: "for-loops do not yet support continue")
+#   for PAT in EXPR { BODY }  ->  { let mut vx_itK = vx_into_iter(EXPR); loop { let PAT = match vx_itK.vx_next() { Some(vx_x) => vx_x, None => break }; BODY } }
+# ------------------------------------------------------------------------------------------------
+def r16_for_desugar(toks, stats, ordinals):
+    for n, k in enumerate(sorted(ordinals, reverse=True)):
+        m = match_table(toks)
+        ls = [l for l in loops_in(toks, m, 0, len(toks)) if toks[l[0]].s == "for"]
+        if k >= len(ls): raise ExtractError("R16: no for loop %d" % k)
+        kw, o, c = ls[k]
+        j = kw + 1
+        while toks[j].s != "in": j += 1
+        patt = toks[kw + 1:j]
+        expr = toks[j + 1:o]
+        body = toks[o + 1:c]
+        new = T("{ let mut vx_it%d = vx_into_iter(" % k) + expr + T("); loop") + [Tok("o", "{", toks[o].line, toks[o].col, True)] \
+            + T("let") + patt + T("= match vx_it%d.vx_next() { Some(vx_x) => vx_x, None => break };" % k) + body + [Tok("c", "}", None, 0, True)] + T("}")
+        toks[kw:c + 1] = new
+        stats["R16.for_desugar"] = stats.get("R16.for_desugar", 0) + 1
     return toks
